@@ -179,7 +179,8 @@ func (b *vdDstBucket) Put(ctx context.Context, path string, opts ...PutOption) (
 // vdFaultPlan: all fault kinds, or (EXACT=1, three objects) one representative per stage of copyPath.
 func vdFaultPlan() int {
 	if verifParam("EXACT") == 1 {
-		return []int{vdFaultNone, vdFaultGet, vdFaultShortWrite, vdFaultWriteClose}[verifNondetChoice(4)]
+		// the first FAULTS kinds of: one representative per stage of copyPath, then the remaining read/put stages
+		return []int{vdFaultNone, vdFaultGet, vdFaultShortWrite, vdFaultWriteClose, vdFaultPut, vdFaultRead}[verifNondetChoice(verifParam("FAULTS"))]
 	}
 	return verifNondetChoice(vdFaultKinds)
 }
